@@ -231,7 +231,7 @@ func (c14) stress(sc core.Scenario, r *core.R) {
 	}
 	core.WaitCh(closed, core.Grace)
 	for _, e := range env.Px.ProtoErrors() {
-		r.Violate("frame-corruption", "frame validator: %s", e)
+		r.Violate("frame-corruption", "frame validator: %s; events: %s", e, core.Log.TailFiltered(60, "none"))
 	}
 	cl, names := writerClasses()
 	r.Key(fmt.Sprintf("stress slow=%q classes=%s", slow, names), len(cl) >= 3)
